@@ -182,8 +182,32 @@ struct RunBase
 #undef HB_CV
 };
 
-struct Trk : public RunBase, public sigc::trackable
+// The tracked class inherits *virtually* from sigc::trackable and is polymorphic (as in an interface/implementation
+// diamond): the conversion Trk& -> trackable& then goes through the vptr, which matters while the object is being
+// destroyed (slot_rep::destroy() runs from ~trackable(), after ~Trk()) — UBSan's vptr check sees a wrong conversion there.
+struct TrkView : public virtual sigc::trackable
 {
+  virtual ~TrkView() {}
+};
+struct TrkController : public virtual sigc::trackable
+{
+  virtual ~TrkController() {}
+};
+struct Trk : public RunBase, public TrkView, public TrkController
+{
+  Trk() = default;
+  Trk(const Trk& o) : sigc::trackable(o), RunBase(o), TrkView(o), TrkController(o) {}
+  Trk(Trk&& o) : sigc::trackable(std::move(o)), RunBase(o), TrkView(), TrkController() {}
+  Trk& operator=(const Trk& o)
+  {
+    sigc::trackable::operator=(o);
+    return *this;
+  }
+  Trk& operator=(Trk&& o)
+  {
+    sigc::trackable::operator=(std::move(o));
+    return *this;
+  }
   // methods with the signal's exact signature, for sigc::signal_connect(sig, obj, &Trk::method): the functor id is a
   // template argument (a bound_mem_functor carries nothing else); non-const and const overloads
   template<int FID>
